@@ -18,3 +18,10 @@ package tagserver
 //@   loop 0 invariant checked: forall j int :: 0 <= j && j <= rangeindex ==> (deps[j].hex in s.localOriginClient.present)
 //@   loop 0 invariant same: s.localOriginClient == entry(s.localOriginClient) && s.store == entry(s.store)
 //@   loop 1 invariant stored: (tag in s.store.put)
+
+// Property C33: every replication task queued for a tag carries the tag, its digest and the
+// dependency list it was given, unchanged (the executor replicates exactly those blobs first).
+//@ func Server.replicateTag
+//@   requires s != nil
+//@   modifies *
+//@   assert task_carries_the_dependencies: at tagreplication.NewTask#0 :: arg0 == tag && arg1 == d && arg2 == deps
